@@ -222,10 +222,14 @@ def _is_resumption(frame: FrameType) -> bool:
     if lasti < 0:
         return False
     code = frame.f_code.co_code
-    if RESUME_OPCODE is not None and code[lasti] == RESUME_OPCODE:
-        return bool(code[lasti + 1] != 0)
+    if RESUME_OPCODE is not None:
+        # A frame that starts running is at its RESUME 0. Anywhere else it was
+        # suspended: at a RESUME with a non-zero argument after a yield or
+        # await, or still at the YIELD_VALUE when the generator is closed or
+        # thrown into.
+        return not (code[lasti] == RESUME_OPCODE and code[lasti + 1] == 0)
     # Before 3.11 a frame that has not run yet has f_lasti == -1
-    return RESUME_OPCODE is None
+    return True
 
 
 # A CodeFilter is a predicate that decides whether or not a the call for the
